@@ -293,11 +293,13 @@ CellsOK(b, a, exact) ==
   ColumnsOK(b, a) => \A c \in 1..Len(b.data.cells) : SeqAll(b.data.cells[c], a.data.cells[c], LAMBDA x, y : CellEq(x, y, exact))
 BranchOK(b, a) == b.data.branch = a.data.branch          \* assignment AND order of every point
 ModelNameOK(b, a) == b.model.name = a.model.name /\ b.model.branch = a.model.branch
+\* model parameters and ranges are preserved to full float precision in every format (the 8-decimal clause of
+\* C07 speaks about data columns only); `exact` is kept in the signature for symmetry with the data clauses
 ParamsOK(b, a, exact) ==
-  SeqAll(b.model.params, a.model.params, LAMBDA x, y : x[1] = y[1] /\ CellEq(x[2], y[2], exact))
+  SeqAll(b.model.params, a.model.params, LAMBDA x, y : x[1] = y[1] /\ CellExact(x[2], y[2]))
 RangesOK(b, a, exact) ==
-  /\ SeqAll(b.model.prange, a.model.prange, LAMBDA x, y : CellEq(x, y, exact))
-  /\ SeqAll(b.model.lrange, a.model.lrange, LAMBDA x, y : CellEq(x, y, exact))
+  /\ SeqAll(b.model.prange, a.model.prange, CellExact)
+  /\ SeqAll(b.model.lrange, a.model.lrange, CellExact)
 RmseOK(b, a) == CellExact(b.model.rmse, a.model.rmse) /\ b.model.rmse_tag = a.model.rmse_tag
 PredictOK(b, a) == SeqAll(b.model.pred, a.model.pred, CellExact)
 
@@ -338,7 +340,7 @@ Failing(b, a, exact, focus, docs) ==
              \cup (IF ParamsOK(b, a, exact) THEN {} ELSE {"model_parameters"})
              \cup (IF RangesOK(b, a, exact) THEN {} ELSE {"model_ranges"})
              \cup (IF exact /\ ~RmseOK(b, a) THEN {"model_rmse"} ELSE {})
-             \cup (IF exact /\ ~PredictOK(b, a) THEN {"model_predictions"} ELSE {}))
+             \cup (IF ~PredictOK(b, a) THEN {"model_predictions"} ELSE {}))
   \cup (IF exact /\ docs.again # "" /\ docs.again # docs.first THEN {"document_fixpoint"} ELSE {})
   \cup (IF exact /\ docs.string # "" /\ docs.string # docs.first THEN {"file_vs_string_document"} ELSE {})
 
@@ -397,13 +399,16 @@ SepSeq == <<"comma", "semicolon", "tab">>
 MatSeq == <<"name_plain", "name_space", "name_unicode", "props_num", "props_text", "props_int">>
 AdsSeq == <<"known", "alias", "custom">>
 RepSeq == <<0, 1, 2>>
+\* magnitude class of the numbers a model carries (parameters, ranges, fit error): of order one / tiny (1e-6..1e-12,
+\* many significant digits: affinity constants with the pressure in Pa) / huge (1e6..1e12) / full float64 precision (1/3)
+MagSeq == <<"order_one", "tiny", "huge", "many_digits">>
 LayoutsOf(cls) == CASE cls = "point" -> PointLayouts [] cls = "model" -> ModelLayouts [] OTHER -> <<"na">>
 VCSeqX == VCSeq \o <<"absent">>
 
 P == 29          \* prime >= every dimension size: orthogonal array OA(P^2, P+1, P, 2)
 Pick(seq, d) == seq[(d % Len(seq)) + 1]
 
-\* a row from its 14 digits (each in 0..P-1); dependent dimensions are interpreted per class / format
+\* a row from its 15 digits (each in 0..P-1); dependent dimensions are interpreted per class / format
 Row(fmt, dg) ==
   LET cls == Pick(ClsSeq, dg[1])
       vc == Pick(VCSeqX, dg[7]) IN
@@ -413,9 +418,10 @@ Row(fmt, dg) ==
    model |-> IF cls = "model" THEN Pick(ModelSeq, dg[9]) ELSE NA,
    target |-> IF fmt = "xl" THEN "file" ELSE Pick(TargetSeq, dg[10]),
    sep |-> IF fmt = "csv" THEN Pick(SepSeq, dg[11]) ELSE NA,
-   matc |-> Pick(MatSeq, dg[12]), ads |-> Pick(AdsSeq, dg[13]), rep |-> Pick(RepSeq, dg[14])]
+   matc |-> Pick(MatSeq, dg[12]), ads |-> Pick(AdsSeq, dg[13]), rep |-> Pick(RepSeq, dg[14]),
+   mag |-> IF cls = "model" THEN Pick(MagSeq, dg[15]) ELSE NA]
 
-NDims == 14
+NDims == 15
 \* orthogonal array: column k of run (a, b) is a + k*b (+ a seeded shift per column) mod P; any two columns
 \* k1 # k2 run through all P^2 pairs because (k1 - k2) is invertible mod P.  The shift is quadratic in k so
 \* that different seeds give different arrays (a shift linear in k only renames the runs).
@@ -428,7 +434,7 @@ OAStrength2 ==
     Cardinality({<<OADigit(k1, a, b, sd), OADigit(k2, a, b, sd)>> : a \in 0..(P - 1), b \in 0..(P - 1)}) = P * P
 DimSizesFit ==
   \A s \in {ClsSeq, PModeSeq, LBasisSeq, MBasisSeq, TClassSeq, PointLayouts, ModelLayouts, VCSeqX, KCSeq, ModelSeq,
-            TargetSeq, SepSeq, MatSeq, AdsSeq} : Len(s) <= P
+            TargetSeq, SepSeq, MatSeq, AdsSeq, MagSeq} : Len(s) <= P
 
 \* the other dimensions of a product row vary with the row index (seeded), so products also sweep them
 Varied(fmt, n, seed, fixed) ==
@@ -465,6 +471,12 @@ ProductModelTemp(fmt, seed) ==      \* layouts "constructed" (0) and "fitted" (2
      LET j == i - 1 IN
      Varied(fmt, i, seed, (1 :> 2) @@ (9 :> (j % Len(ModelSeq))) @@ (5 :> ((j \div Len(ModelSeq)) % Len(TClassSeq)))
                           @@ (6 :> 2 * (j \div (Len(ModelSeq) * Len(TClassSeq)))))]
+\* every model x magnitude class of its numbers x the two ways a model object is handed over (constructed, as_fitted)
+ProductModelMag(fmt, seed) ==
+  [i \in 1..(Len(ModelSeq) * Len(MagSeq) * 2) |->
+     LET j == i - 1 IN
+     Varied(fmt, i, seed, (1 :> 2) @@ (9 :> (j % Len(ModelSeq))) @@ (15 :> ((j \div Len(ModelSeq)) % Len(MagSeq)))
+                          @@ (6 :> (j \div (Len(ModelSeq) * Len(MagSeq)))))]
 \* material class x adsorbate class x class
 ProductMat(fmt, seed) ==
   [i \in 1..(3 * 6 * 3) |->
@@ -482,7 +494,7 @@ ProductCLVK(fmt, seed) ==
 
 Rows(fmt, tier, seed) ==
   LET core == ProductCLV(fmt, seed) \o ProductKV(fmt, seed) \o ProductModels(fmt, seed) \o ProductModelTemp(fmt, seed)
-              \o Pairwise(fmt, seed) IN
+              \o ProductModelMag(fmt, seed) \o Pairwise(fmt, seed) IN
   IF tier = "quick" THEN core
   ELSE core \o ProductUnits(fmt, seed) \o ProductMat(fmt, seed) \o ProductCLVK(fmt, seed + 3) \o ProductKV(fmt, seed + 7)
             \o Pairwise(fmt, seed + 1) \o Pairwise(fmt, seed + 2) \o Pairwise(fmt, seed + 3) \o Pairwise(fmt, seed + 4)
